@@ -135,6 +135,98 @@ Proof.
   rewrite Hg1. destruct (bg_has_super s (g + 1)); reflexivity.
 Qed.
 
+(* ---- with the group-zero adjustment: no geometry is excluded any more *)
+Definition old_desc_blk (s : sbinfo) (g : N) : N := snd (fst (fst (super_and_bgd_loc s g))).
+Definition new_desc_blk (s : sbinfo) (g : N) : N := snd (fst (super_and_bgd_loc s g)).
+Definition super_blk (s : sbinfo) (g : N) : N := fst (fst (fst (super_and_bgd_loc s g))).
+
+Lemma has_super_0 s : bg_has_super s 0 = true.
+Proof. reflexivity. Qed.
+
+Lemma desc_loc_big_oldstyle_primary big s bc i : big_wf big s ->
+  (meta_bg s = false \/ i < first_meta_bg s) -> 0 < desc_per_block s ->
+  descriptor_block_loc_big big s bc (first_data_block s) i = old_desc_blk s 0 + i.
+Proof.
+  intros Hw Hb Hd. unfold descriptor_block_loc_big, old_desc_blk, super_and_bgd_loc.
+  rewrite has_super_0. rewrite N.div_0_l by lia.
+  assert (E1 : negb (meta_bg s) || (i <? first_meta_bg s) = true) by (destruct Hb as [Hb|Hb]; [rewrite Hb; reflexivity|destruct (meta_bg s); cbn [negb orb]; lia]).
+  assert (E2 : negb (meta_bg s) || (0 <? first_meta_bg s) = true) by (destruct Hb as [Hb|Hb]; [rewrite Hb; reflexivity|destruct (meta_bg s); cbn [negb orb]; lia]).
+  rewrite E1, E2. cbn [fst snd]. unfold group_first_block. rewrite N.mul_0_l, N.add_0_r.
+  unfold big_wf in Hw.
+  destruct (N.eqb_spec (blocksize s) 1024) as [B|B].
+  - destruct (N.eqb_spec (first_data_block s) 0) as [F|F]; cbn [andb].
+    + assert (big = true) by (apply Hw; assumption). subst big. rewrite F. lia.
+    + lia.
+  - rewrite Bool.andb_false_r. cbn [andb]. destruct (first_data_block s =? 0); lia.
+Qed.
+
+Lemma desc_loc_big_oldstyle_backup big s bc g i :
+  (meta_bg s = false \/ g / desc_per_block s < first_meta_bg s) -> (meta_bg s = false \/ i < first_meta_bg s) ->
+  bg_has_super s g = true -> 0 < g -> 0 < blocks_per_group s ->
+  descriptor_block_loc_big big s bc (super_blk s g) i = old_desc_blk s g + i.
+Proof.
+  intros Hg Hb Hs Hpos Hbpg. unfold descriptor_block_loc_big, old_desc_blk, super_blk, super_and_bgd_loc.
+  rewrite Hs.
+  assert (E1 : negb (meta_bg s) || (i <? first_meta_bg s) = true) by (destruct Hb as [Hb|Hb]; [rewrite Hb; reflexivity|destruct (meta_bg s); cbn [negb orb]; lia]).
+  assert (E2 : negb (meta_bg s) || (g / desc_per_block s <? first_meta_bg s) = true) by (destruct Hg as [Hg|Hg]; [rewrite Hg; reflexivity|destruct (meta_bg s); cbn [negb orb]; lia]).
+  rewrite E1, E2. cbn [fst snd].
+  assert (Hz : group_first_block s g <> 0) by (unfold group_first_block; nia).
+  replace (group_first_block s g =? 0) with false by lia. cbn [andb].
+  replace (group_first_block s g =? 0) with false by lia. lia.
+Qed.
+
+Lemma desc_loc_big_primary big s bc i : big_wf big s ->
+  meta_bg s = true -> first_meta_bg s <= i -> 1 < desc_per_block s -> 0 < blocks_per_group s ->
+  descriptor_block_loc_big big s bc (first_data_block s) i = new_desc_blk s (desc_per_block s * i).
+Proof.
+  intros Hw Hm Hi Hd Hbpg. set (g := desc_per_block s * i).
+  unfold descriptor_block_loc_big, new_desc_blk, super_and_bgd_loc. fold g.
+  rewrite Hm. cbn [negb orb].
+  replace (i <? first_meta_bg s) with false by lia.
+  rewrite N.eqb_refl. cbn [negb andb].
+  assert (Hdiv : g / desc_per_block s = i) by (unfold g; rewrite N.mul_comm; apply N.div_mul; lia).
+  rewrite Hdiv. replace (i <? first_meta_bg s) with false by lia.
+  assert (Hmod : g mod desc_per_block s = 0) by (unfold g; rewrite N.mul_comm; apply N.mod_mul; lia).
+  rewrite Hmod. rewrite N.eqb_refl. cbn [orb fst snd].
+  unfold big_wf in Hw.
+  destruct (N.eqb_spec (blocksize s) 1024) as [B|B].
+  - destruct (N.eqb_spec (group_first_block s g) 0) as [Z|Z]; cbn [andb].
+    + assert (F : first_data_block s = 0) by (unfold group_first_block in Z; lia).
+      assert (I0 : i = 0) by (unfold group_first_block, g in Z; nia).
+      assert (big = true) by (apply Hw; assumption). subst big.
+      rewrite Z, I0. cbn [N.eqb]. destruct (bg_has_super s g); lia.
+    + destruct (N.eqb_spec i 0) as [I0|I0].
+      * assert (G0 : g = 0) by (unfold g; lia).
+        assert (F : first_data_block s <> 0) by (unfold group_first_block in Z; rewrite G0 in Z; lia).
+        assert (big = false) by (destruct big; [exfalso; apply F, Hw; auto|reflexivity]). subst big.
+        destruct (bg_has_super s g); lia.
+      * destruct (bg_has_super s g); lia.
+  - rewrite Bool.andb_false_r. cbn [andb]. destruct (i =? 0); destruct (bg_has_super s g); lia.
+Qed.
+
+Lemma desc_loc_big_backup big s bc gb i : meta_bg s = true -> first_meta_bg s <= i -> 2 < desc_per_block s ->
+  0 < blocks_per_group s -> gb <> first_data_block s ->
+  let g := desc_per_block s * i in
+  group_first_block s g + (if bg_has_super s g then 1 else 0) + blocks_per_group s < bc ->
+  descriptor_block_loc_big big s bc gb i = new_desc_blk s (g + 1).
+Proof.
+  intros Hm Hi Hd Hb Hg g Hlt.
+  assert (E : descriptor_block_loc_big big s bc gb i = descriptor_block_loc s bc gb i).
+  { unfold descriptor_block_loc_big, descriptor_block_loc. fold g. rewrite Hm. cbn [negb orb].
+    replace (i <? first_meta_bg s) with false by lia.
+    replace (gb =? first_data_block s) with false by lia. cbn [negb andb].
+    replace (group_first_block s g + (if bg_has_super s g then 1 else 0) + blocks_per_group s <? bc) with true by lia. reflexivity. }
+  rewrite E. unfold new_desc_blk. apply desc_loc_backup_lemma; assumption.
+Qed.
+
+(* the code as it was: second old-style descriptor block of a 1k-block bigalloc filesystem *)
+Lemma desc_loc_big_old_refuted : exists s bc i, big_wf true s /\ meta_bg s = false /\ 0 < blocks_per_group s /\
+  descriptor_block_loc_big_old true s bc (first_data_block s) i <> old_desc_blk s 0 + i.
+Proof.
+  exists (mkSb true false 0 0 false 0 16 3 0 0 8192 1024), 307200, 1.
+  split; [intros _; split; reflexivity|]. split; [reflexivity|]. split; [reflexivity|]. vm_compute. discriminate.
+Qed.
+
 (* sparse_super2: the iterator yields the recorded backup groups (those that are not 0), each once,
    in order, and the group count from then on *)
 Lemma ss2_tail : forall n b0 b1 gdc, list_backups_ss2_n n b0 b1 gdc 3 = repeat gdc n.
